@@ -353,6 +353,11 @@ func (it *Interp) binop(op token.Token, a, b Value, ta, tbt types.Type) Value {
 				}
 			} else if x.S.K == SReal {
 				if it.decide(it.tb.Eq(y, it.tb.Zero(y.S))) {
+					// Inf/NaN is not representable over the reals. The path stops as outside the model, but the
+					// witness (an input that makes the divisor zero) is replayed against the real code: if a
+					// harness assertion fails there (a NaN where the property promises a value), that is a
+					// violation like any other; if not, the event only counts as outside-model.
+					it.rep.addViolation(it, "outside-model: division by zero (NaN or Inf natively)", "the divisor can be zero in "+it.where(), nil)
 					it.outside("real-mode division by zero (Inf/NaN is not representable)")
 				}
 			}
